@@ -1,7 +1,113 @@
+/-
+Helper lemmas for C15 (SafeLearner prediction formats).  Property statements live in `Props/C15.lean`.
+-/
 import CobaVerif.Model.C15
 
 namespace Coba.C15
+open PyVal
 
-theorem fixes_all_short' : Fixes.all.short = true := rfl
+/-! ### identity -/
+
+theorem pyIs_refl (a : PyVal) : pyIs a a = true := by cases a <;> simp [pyIs]
+
+theorem any_pyIs_action (as : List PyVal) (k : Nat) (h : k < as.length) :
+    as.any (fun x => pyIs (as.getD k .none) x) = true := by
+  rw [List.any_eq_true]
+  refine ⟨as.getD k .none, ?_, pyIs_refl _⟩
+  simp [List.getD_eq_getElem?_getD, List.getElem?_eq_getElem h]
+
+/-- a top-level object built by a learner -/
+def isLrn : PyVal → Bool
+  | .flt (.lrn _) _ | .str (.lrn _) _ | .tuple (.lrn _) _ | .list (.lrn _) _ | .dict (.lrn _) _ _ => true
+  | _ => false
+
+theorem pyIs_lrn_seq (t : Bool) (xs : List PyVal) (a : PyVal) (h : isLrn a = false) : pyIs (mkSeq t xs) a = false := by
+  cases t <;> cases a <;> simp_all [mkSeq, pyIs]
+  all_goals (rename_i r _; cases r <;> simp_all [isLrn])
+
+theorem any_pyIs_lrn_seq (t : Bool) (xs : List PyVal) (as : List PyVal) (h : ∀ a ∈ as, isLrn a = false) :
+    as.any (fun a => pyIs (mkSeq t xs) a) = false := by
+  rw [List.any_eq_false]; intro a ha; simp [pyIs_lrn_seq t xs a (h a ha)]
+
+/-! ### sequences built by the learner -/
+
+@[simp] theorem getIdx_mkSeq_zero (t : Bool) (x : PyVal) (xs : List PyVal) : getIdx (mkSeq t (x :: xs)) 0 = .ok x := by
+  cases t <;> simp [mkSeq, getIdx]
+
+@[simp] theorem getLast_mkSeq (t : Bool) (xs : List PyVal) (x : PyVal) : getLast (mkSeq t (xs ++ [x])) = .ok x := by
+  cases t <;> simp [mkSeq, getLast]
+
+@[simp] theorem len_mkSeq (t : Bool) (xs : List PyVal) : (mkSeq t xs).len = xs.length := by
+  cases t <;> simp [mkSeq, PyVal.len]
+@[simp] theorem hasLen_mkSeq (t : Bool) (xs : List PyVal) : (mkSeq t xs).hasLen = true := by
+  cases t <;> simp [mkSeq, PyVal.hasLen]
+@[simp] theorem isDict_mkSeq (t : Bool) (xs : List PyVal) : (mkSeq t xs).isDict = false := by
+  cases t <;> simp [mkSeq, PyVal.isDict]
+@[simp] theorem isStr_mkSeq (t : Bool) (xs : List PyVal) : (mkSeq t xs).isStr = false := by
+  cases t <;> simp [mkSeq, PyVal.isStr]
+@[simp] theorem items_mkSeq (t : Bool) (xs : List PyVal) : (mkSeq t xs).items = some xs := by
+  cases t <;> simp [mkSeq, PyVal.items]
+@[simp] theorem iter_mkSeq (t : Bool) (xs : List PyVal) : iter (mkSeq t xs) = .ok xs := by
+  cases t <;> simp [mkSeq, iter]
+@[simp] theorem lenE_mkSeq (t : Bool) (xs : List PyVal) : lenE (mkSeq t xs) = .ok xs.length := by
+  simp [lenE]
+
+/-- the slice `v[:-1]` of a learner-built sequence (a new object) -/
+def seqTmp (t : Bool) (xs : List PyVal) : PyVal := if t then .tuple .tmp xs else .list .tmp xs
+
+@[simp] theorem dropLast_mkSeq (t : Bool) (xs : List PyVal) (x : PyVal) :
+    dropLast (mkSeq t (xs ++ [x])) = .ok (seqTmp t xs) := by
+  cases t <;> simp [mkSeq, dropLast, seqTmp]
+
+@[simp] theorem items_seqTmp (t : Bool) (xs : List PyVal) : (seqTmp t xs).items = some xs := by
+  cases t <;> simp [seqTmp, PyVal.items]
+
+/-! ### `pred_format` recognises each documented format -/
+
+theorem predFormat_dA (fx : Fixes) (a : PyVal) (as : List PyVal) :
+    predFormat fx (.dict (.lrn 0) ["action"] [a]) (some as) = .ok ⟨.AX, true⟩ := by
+  simp [predFormat, PyVal.isDict, hasKey, pure, Except.pure]
+
+theorem predFormat_dAP (fx : Fixes) (t : Bool) (a p : PyVal) (as : List PyVal) :
+    predFormat fx (.dict (.lrn 0) ["action_prob"] [mkSeq t [a, p]]) (some as) = .ok ⟨.AP, true⟩ := by
+  cases t <;> simp [predFormat, PyVal.isDict, hasKey, getKey, lookupKey, mkSeq, PyVal.hasLen, PyVal.len, bind, Except.bind, pure, Except.pure]
+
+theorem predFormat_dPM (fx : Fixes) (t : Bool) (pmf : List PyVal) (as : List PyVal) (hK : as ≠ [])
+    (hl : pmf.length = as.length) :
+    predFormat fx (.dict (.lrn 0) ["pmf"] [mkSeq t pmf]) (some as) = .ok ⟨.PM, true⟩ := by
+  cases t <;> cases as <;> simp_all [predFormat, PyVal.isDict, hasKey, getKey, lookupKey, mkSeq, PyVal.hasLen, PyVal.len, bind, Except.bind, pure, Except.pure]
+
+/-- un-hinted (action, prob): a two-item sequence (built by the learner, or a slice of its answer) whose first item
+is one of the offered objects -/
+theorem predFormat_AP (fx : Fixes) (v : PyVal) (a p : PyVal) (as : List PyVal)
+    (hv : v.items = some [a, p]) (ha : as.any (fun x => pyIs a x) = true) :
+    predFormat fx v (some as) = .ok ⟨.AP, false⟩ := by
+  have hne : as ≠ [] := by intro h; simp [h] at ha
+  cases v <;> simp [PyVal.items] at hv
+  all_goals subst hv
+  all_goals cases as <;> simp_all [predFormat, PyVal.isDict, PyVal.hasLen, PyVal.isStr, PyVal.len, getIdx, bind, Except.bind, pure, Except.pure]
+  all_goals cases fx.short <;> simp
+
+/-- a PMF over the actions: numeric, non-negative, summing to one -/
+def validPmf (pmf : List PyVal) (as : List PyVal) : Bool :=
+  pmf.length == as.length &&
+  (match sumNums pmf with | some s => s == 1 | Option.none => false) &&
+  pmf.all (fun x => match x.num with | some q => decide (0 ≤ q) | Option.none => false)
+
+theorem validPmf_length {pmf as : List PyVal} (h : validPmf pmf as = true) : pmf.length = as.length := by
+  simp only [validPmf, Bool.and_eq_true, beq_iff_eq] at h; exact h.1.1
+
+theorem possiblePmf_valid (t : Bool) (pmf as : List PyVal) (h : validPmf pmf as = true) :
+    possiblePmf (mkSeq t pmf) as = true := by
+  simp only [validPmf, Bool.and_eq_true, beq_iff_eq] at h
+  obtain ⟨⟨h1, h2⟩, h3⟩ := h
+  cases hs : sumNums pmf with
+  | none => simp [hs] at h2
+  | some s =>
+    simp [hs] at h2
+    subst h2
+    have h0 : ((1 : Rat) - 1 ≤ 1 / 1000) := by decide
+    simp [possiblePmf, h1, hs, h0]
+    simpa using h3
 
 end Coba.C15
